@@ -3,13 +3,22 @@ from pv import obs_effects as E
 from pv import obs_classes as C
 
 KEYS = ['parso.normalizer.Issue.__init__', 'parso.normalizer.Issue.__eq__', 'parso.normalizer.Normalizer.add_issue',
-        'parso.python.prefix.PrefixPart.end_pos', 'parso.python.prefix.PrefixPart.create_spacing_part']
+        'parso.python.prefix.PrefixPart.end_pos', 'parso.python.prefix.PrefixPart.create_spacing_part',
+        # 292 is exact: recorded by the visit of the root  <=>  the text does not end in a line break
+        'parso.normalizer.Normalizer.add_issue#records', 'parso.python.pep8.PEP8Normalizer.add_issue#first',
+        'parso.python.pep8.PEP8Normalizer._visit_node#file_input']
 
 
 def run(report):
     add_obs(report, lambda: E.tree_purity_obligations('C20', ['parso.grammar.Grammar._get_normalizer_issues']))
     add_obs(report, C.add_issue_callsite_obligations, 'parso.python.pep8', 'C20')
     verify_keys(report, KEYS)
+    report.assume("E292 exactness (PEP8Normalizer._visit_node#file_input) assumes, as preconditions: the lemma that consecutive leaves are "
+                  "adjacent in the ghost text and the first leaf starts at offset 0 (tile + tree theories, induction over the height; "
+                  "not machine-checked), that on an error-free tree every token before the end marker has text, and that a token "
+                  "ending in a line break is a NEWLINE token",
+                  "that _visit_node is entered for the root before any leaf was visited (_previous_leaf is None, no 292 issue yet) "
+                  "follows from Normalizer.walk / visit order and PEP8Normalizer.__init__, which are not under contract")
     report.assume("nullability obligations of the PEP 8 visitor (the bracket/suite stack discipline of _indentation_tos) "
                   "are not discharged deductively; totality rests on the bounded stand-in, where the crash sites of the "
                   "unchanged tree are listed as known findings")
